@@ -30,7 +30,8 @@ func LimitCryptionHandler(limitBytes int64, key []byte) func(http.Handler) http.
 			cw := newCryptionResponseWriter(w)
 			defer cw.flush(r.Context(), key)
 
-			if r.ContentLength <= 0 {
+			// ContentLength is -1 for a body of unknown length (chunked), which has to be decrypted as well
+			if r.ContentLength == 0 {
 				next.ServeHTTP(cw, r)
 				return
 			}
@@ -56,10 +57,25 @@ func decryptBody(limitBytes int64, key []byte, r *http.Request) error {
 		content = make([]byte, r.ContentLength)
 		_, err = io.ReadFull(r.Body, content)
 	} else {
-		content, err = io.ReadAll(io.LimitReader(r.Body, maxBytes))
+		max := limitBytes
+		if max <= 0 {
+			max = maxBytes
+		}
+		content, err = io.ReadAll(io.LimitReader(r.Body, max))
+		if err == nil && int64(len(content)) == max {
+			// the limit is used up, fine only if the body ends here
+			if n, _ := io.ReadFull(r.Body, make([]byte, 1)); n > 0 {
+				err = errContentLengthExceeded
+			}
+		}
 	}
 	if err != nil {
 		return err
+	}
+
+	if len(content) == 0 {
+		// unknown length and no body at all, nothing to decrypt
+		return nil
 	}
 
 	content, err = base64.StdEncoding.DecodeString(string(content))
